@@ -40,7 +40,7 @@ func c20Hello(id string) []byte {
 	return refcodec.MkFrame(1, append(refcodec.EncInt(69), ad.encode(false)...))
 }
 
-var c20Kinds = []string{"legit", "wrong-id", "empty-id", "earlier-id", "prefix-id", "other-command", "garbage", "truncated-hello", "oversized-ad", "immediate-close", "no-id-attr"}
+var c20Kinds = []string{"legit", "wrong-id", "empty-id", "earlier-id", "prefix-id", "other-command", "command-high-bits", "garbage", "truncated-hello", "oversized-ad", "immediate-close", "no-id-attr"}
 
 func c20ConnBytes(kind string) []byte {
 	switch kind {
@@ -57,6 +57,11 @@ func c20ConnBytes(kind string) []byte {
 	case "other-command":
 		ad := newWireAd().setS("ClaimId", c20MyID)
 		return refcodec.MkFrame(1, append(refcodec.EncInt(68), ad.encode(false)...))
+	case "command-high-bits":
+		// the right id under a command word that is NOT the reverse-connect command but equals it
+		// in its low 32 bits
+		ad := newWireAd().setS("ClaimId", c20MyID).setS("RequestID", "1").setS("MyAddress", "<10.0.0.9:1>")
+		return refcodec.MkFrame(1, append(refcodec.EncInt(69+1<<32), ad.encode(false)...))
 	case "garbage":
 		return []byte("GET / HTTP/1.0\r\n\r\n\x00\xff\xfe garbage garbage garbage")
 	case "truncated-hello":
@@ -709,7 +714,7 @@ func c20MultiBroker(res *vlib.Result, working []bool, stagger time.Duration) {
 func C20Plan() *vlib.Plan {
 	p := &vlib.Plan{
 		Property: "C20", Level: "exploration",
-		Rule:   "E-ENUM of arrival orders. (1) accept loop (in-package seam) over a scripted listener: all sequences of length <= L over 11 connection kinds {legit id, wrong id, empty id, id of an earlier request, 39-char prefix of the id, non-hello command, garbage, truncated hello, oversized ad, immediate close, hello without id}; the returned conn must be the first one that presented the id, every earlier one closed, none returned otherwise. (2) proxied request over a scripted broker stream: 11 reply shapes; a conn only after success + matching hello. (3) Dial in standard mode against in-process brokers on loopback TCP: every ordering of {reply-ok, reply-fail} x {legit, 4 rogue kinds} up to 3 events (a rogue's turn ends when it observes its own close), each run twice; 1-3 brokers with every working subset x stagger {-1, 20 ms}: the returned conn delivers the token written on the legit reverse connection. (4) 10^4 generated connect ids are 40 hex characters and pairwise distinct, and two fresh processes started with math/rand's automatic seeding switched off (GODEBUG=randautoseed=0) do not generate the same ids. Non-trivial = at least one connection/reply consumed by the dialer. (4) connect-id freshness per request: 2 and 3 scripted brokers sharing one scenario (whichever is asked first fails; the next lets a rogue present the EARLIER request's id, then the legitimate connection), sequential and staggered: all requests of one dial carry distinct ids and the rogue is never returned. (5) a dial whose reverse-connect port is an anonymous shared-port endpoint: neither the advertised return address nor the socket's file name contains any 8-character piece of the connect id. (6) a nested multi-hop contact (entry#7#3) through Dial against a scripted entry broker answering on the request's own connection with {matching hello, wrong id, empty id, garbage, failure reply}: only the matching hello yields a connection, every other answer ends in an error with the broker connection closed. (7) held hellos: legitimate and rogue connections {wrong id, garbage, mute; thorough: earlier id, two rogues} are opened and greeted in every interleaving on the TCP listener and on a shared-port endpoint (SendForwardedConn), GC suspended: only the connection that presented the id is returned, every other one that reached the port ends closed.",
+		Rule:   "E-ENUM of arrival orders. (1) accept loop (in-package seam) over a scripted listener: all sequences of length <= L over 12 connection kinds {legit id, wrong id, empty id, id of an earlier request, 39-char prefix of the id, non-hello command, a command word equal to the hello's only in its low 32 bits, garbage, truncated hello, oversized ad, immediate close, hello without id}; the returned conn must be the first one that presented the id, every earlier one closed, none returned otherwise. (2) proxied request over a scripted broker stream: 11 reply shapes; a conn only after success + matching hello. (3) Dial in standard mode against in-process brokers on loopback TCP: every ordering of {reply-ok, reply-fail} x {legit, 4 rogue kinds} up to 3 events (a rogue's turn ends when it observes its own close), each run twice; 1-3 brokers with every working subset x stagger {-1, 20 ms}: the returned conn delivers the token written on the legit reverse connection. (4) 10^4 generated connect ids are 40 hex characters and pairwise distinct, and two fresh processes started with math/rand's automatic seeding switched off (GODEBUG=randautoseed=0) do not generate the same ids. Non-trivial = at least one connection/reply consumed by the dialer. (4) connect-id freshness per request: 2 and 3 scripted brokers sharing one scenario (whichever is asked first fails; the next lets a rogue present the EARLIER request's id, then the legitimate connection), sequential and staggered: all requests of one dial carry distinct ids and the rogue is never returned. (5) a dial whose reverse-connect port is an anonymous shared-port endpoint: neither the advertised return address nor the socket's file name contains any 8-character piece of the connect id. (6) a nested multi-hop contact (entry#7#3) through Dial against a scripted entry broker answering on the request's own connection with {matching hello, wrong id, empty id, garbage, failure reply}: only the matching hello yields a connection, every other answer ends in an error with the broker connection closed. (7) held hellos: legitimate and rogue connections {wrong id, garbage, mute; thorough: earlier id, two rogues} are opened and greeted in every interleaving on the TCP listener and on a shared-port endpoint (SendForwardedConn), GC suspended: only the connection that presented the id is returned, every other one that reached the port ends closed.",
 		Assume: []string{"(3) uses real loopback TCP and goroutines: where a failure reply and the matching hello are both available either documented outcome is accepted", "the 'nothing decisive arrives' scripts rely on the dial's own 300 ms timeout"},
 	}
 	p.Gen = func(tier string, yield func(vlib.Case)) {
